@@ -10,9 +10,14 @@ import (
 	"golang.org/x/tools/go/ssa"
 )
 
-func invokeKey(c *ssa.CallCommon) string {
+func (e *Engine) invokeKey(c *ssa.CallCommon) string {
 	t := c.Value.Type()
-	return fmt.Sprintf("(%s).%s", types.TypeString(t, func(p *types.Package) string { return p.Name() }), c.Method.Name())
+	return fmt.Sprintf("(%s).%s", types.TypeString(t, func(p *types.Package) string {
+		if p == e.TPkg {
+			return ""
+		}
+		return p.Name()
+	}), c.Method.Name())
 }
 
 // fnKey is the contract key of a function: package-local names are unqualified,
@@ -107,7 +112,8 @@ func (x *Exec) callCommon(fr *frame, s *State, c *ssa.CallCommon, fnv Value, arg
 		return x.builtin(fr, s, b, c, args, pos)
 	}
 	if c.IsInvoke() {
-		key := invokeKey(c)
+		key := x.E.invokeKey(c)
+		x.atCallCheck(fr, s, key)
 		x.nilCheckIface(fr, s, fnv, pos)
 		if ct := x.E.Contracts[key]; ct != nil {
 			ct.Used = true
@@ -168,34 +174,7 @@ func (x *Exec) nilCheckIface(fr *frame, s *State, v Value, pos token.Pos) {
 }
 
 func (x *Exec) callFunction(fr *frame, s *State, callee *ssa.Function, args []Value, bindings []Value, pos token.Pos) []Value {
-	if fr.contract != nil && len(fr.contract.AtCalls) > 0 {
-		key := x.E.fnKey(callee)
-		for k, ac := range fr.contract.AtCalls {
-			if ac.Callee != key {
-				continue
-			}
-			env := x.invEnv(fr, s)
-			// a call site where the locals the assertion names are not in scope is not the anchored one
-			prop, ok := func() (t Term, ok bool) {
-				defer func() {
-					if r := recover(); r != nil {
-						if u, isU := r.(unsupported); isU && strings.Contains(u.msg, "unknown identifier") {
-							ok = false
-							return
-						}
-						panic(r)
-					}
-				}()
-				return env.evalBool(ac.Expr), true
-			}()
-			if !ok {
-				continue
-			}
-			ac.Hits++
-			x.obligeKnown(env, fmt.Sprintf("%s#atcall%d.%d", x.C.Unit, k, x.bump(fr, fmt.Sprintf("atcall%d", k))), "atcall",
-				fmt.Sprintf("%s:%d", filepath.Base(ac.File), ac.Line), "before "+ac.Callee+": "+ac.Text, s.Reach, prop)
-		}
-	}
+	x.atCallCheck(fr, s, x.E.fnKey(callee))
 	if res, ok := x.stdlibModel(fr, s, callee, args, pos, false); ok {
 		return res
 	}
@@ -542,6 +521,9 @@ func (x *Exec) havocModifies(env *specEnv, s *State, m *Clause) {
 		case "loc":
 			// explicit stores of fresh leaves: quantifier-free and exact
 			for i, k := range t.sorts {
+				if k == "" {
+					continue
+				}
 				h := s.Heaps[k]
 				obj := Select(h, t.ref, ObjSort(k))
 				s.Heaps[k] = x.C.Define("H", Store(h, t.ref, Store(obj, offAdd(t.off, int64(i)), x.C.Fresh("mod", k))))
@@ -553,7 +535,7 @@ func (x *Exec) havocModifies(env *specEnv, s *State, m *Clause) {
 		case "elems":
 			seen := map[Sort]bool{}
 			for _, k := range t.sorts {
-				if seen[k] {
+				if seen[k] || k == "" {
 					continue
 				}
 				seen[k] = true
@@ -632,4 +614,35 @@ func (e *Engine) autoPure(fn *ssa.Function, depth int) bool {
 	}
 	e.autoPureCache[fn] = true
 	return true
+}
+
+// atCallCheck evaluates the unit's "atcall" region postconditions anchored at calls of key.
+func (x *Exec) atCallCheck(fr *frame, s *State, key string) {
+	if fr.contract != nil && len(fr.contract.AtCalls) > 0 {
+		for k, ac := range fr.contract.AtCalls {
+			if ac.Callee != key {
+				continue
+			}
+			env := x.invEnv(fr, s)
+			// a call site where the locals the assertion names are not in scope is not the anchored one
+			prop, ok := func() (t Term, ok bool) {
+				defer func() {
+					if r := recover(); r != nil {
+						if u, isU := r.(unsupported); isU && strings.Contains(u.msg, "unknown identifier") {
+							ok = false
+							return
+						}
+						panic(r)
+					}
+				}()
+				return env.evalBool(ac.Expr), true
+			}()
+			if !ok {
+				continue
+			}
+			ac.Hits++
+			x.obligeKnown(env, fmt.Sprintf("%s#atcall%d.%d", x.C.Unit, k, x.bump(fr, fmt.Sprintf("atcall%d", k))), "atcall",
+				fmt.Sprintf("%s:%d", filepath.Base(ac.File), ac.Line), "before "+ac.Callee+": "+ac.Text, s.Reach, prop)
+		}
+	}
 }
